@@ -60,7 +60,12 @@ func valStr(kind string, v int) string {
 		return fmt.Sprintf("cls%d", v)
 	case "dev":
 		return devDescNRI(mkDevice("", v))
-	case "ann", "env", "unified":
+	case "env":
+		if v%4 == 0 {
+			return fmt.Sprintf("-Dopt=v%d,k=%d", v, v) // a value with '=' in it
+		}
+		return fmt.Sprintf("v%d", v)
+	case "ann", "unified":
 		return fmt.Sprintf("v%d", v)
 	case "mount":
 		m := mkMount("", v)
